@@ -1608,10 +1608,16 @@ func (in *Interp) rangeOp(v Value) Value {
 				order[i] = i
 			}
 			// fork over iteration orders (Go leaves the order unspecified)
-			if n >= 2 {
-				if n > 4 {
-					panic(&Inconclusive{Msg: "range over map with more than 4 entries (bound exceeded)"})
+			if n > 4 {
+				// bound: for large maps only insertion order and its reverse are explored
+				in.noteAssumption("range over a map with more than 4 entries explores 2 of n! iteration orders (insertion order and its reverse)")
+				tr := in.tc.BoolConst(true)
+				if in.decide(2, func(i int) *Term { return tr }) == 1 {
+					for i, j := 0, n-1; i < j; i, j = i+1, j-1 {
+						order[i], order[j] = order[j], order[i]
+					}
 				}
+			} else if n >= 2 {
 				perms := permutations(n)
 				tr := in.tc.BoolConst(true)
 				ch := in.decide(len(perms), func(i int) *Term { return tr })
